@@ -247,7 +247,25 @@ def execute(spec, schedule=None):
                 suite = ts.ConcurrentTestSuite(unittest.TestSuite(), make_tests, wrap_result if spec["wrap_result"] else None)
             try:
                 suite.run(caller)
+                # who is still running at the moment run() returns (before anything else is scheduled)
+                state["unfinished_at_return"] = [t.name for t in sched.tasks if t.name.startswith("W") and not t.done]
             finally:
+                state["wrapped_first"] = list(wrapped)
+                if spec.get("second_run") and not stream:
+                    # the same suite object used again, without faults, into a fresh result
+                    rec2 = Ext()
+                    ok_worker = Worker(90, {"tests": ["success", "failure"], "raise_after": None, "base": False})
+                    suite.make_tests = lambda suite_: [ok_worker]
+                    state["second_phase"] = True
+                    try:
+                        suite.run(rec2)
+                    except BaseException as e2:
+                        if isinstance(e2, S.Killed):
+                            raise
+                        second["exc"] = e2
+                    second["done"] = True
+                    second["classic"] = True
+                    second["events"] = [(e[0], e[1].id()) for e in rec2.events if e[0] in ("startTest", "stopTest") or e[0] in OUTCOMES]
                 if spec.get("second_run") and stream:
                     # the same suite object used again, this time without any fault: a fresh, complete run
                     rec2 = streams.Recorder()
@@ -272,7 +290,7 @@ def execute(spec, schedule=None):
             state["aborted"] = True
         finally:
             state["main_done"] = True
-            state["unfinished_at_return"] = [t.name for t in sched.tasks if t.name.startswith("W") and not t.done]
+            state.setdefault("unfinished_at_return", [t.name for t in sched.tasks if t.name.startswith("W") and not t.done])
 
     saved = (ts.threading, ts.Queue)
     import threading as real_threading
@@ -422,8 +440,8 @@ def execute(spec, schedule=None):
             got_broken = sum(1 for e in evs if e[0] == "addError" and e[1].id().startswith("broken-runner"))
             if got_broken != nbroke:
                 vs.append(V("broken-runner", "classic-count", "%d workers raised from run(), %d broken-runner errors reported" % (nbroke, got_broken)))
-            if spec["wrap_result"] and sorted(wrapped) != list(range(len(workers))):
-                vs.append(V("wrap_result", "calls", "wrap_result called with %r" % wrapped))
+            if spec["wrap_result"] and sorted(state.get("wrapped_first", wrapped)) != list(range(len(workers))):
+                vs.append(V("wrap_result", "calls", "wrap_result called with %r" % state.get("wrapped_first", wrapped)))
     if classic_result_fault and not any(v.clause == "deadlock" for v in vs):
         # the caller's result raised inside a worker's block: if that was the outcome call, the test must still be
         # closed before any other test is opened (one test at a time)
@@ -441,6 +459,8 @@ def execute(spec, schedule=None):
                     open_ = None
     if second["done"] and not any(v.clause == "deadlock" for v in vs):
         want2 = [("w90.t0", "inprogress", "again"), ("w90.t0", "success", "again"), ("w90.t1", "inprogress", "again"), ("w90.t1", "fail", "again")]
+        if second.get("classic"):
+            want2 = [("startTest", "w90.t0"), ("addSuccess", "w90.t0"), ("stopTest", "w90.t0"), ("startTest", "w90.t1"), ("addFailure", "w90.t1"), ("stopTest", "w90.t1")]
         if second["exc"] is not None or second["events"] != want2:
             vs.append(V("reuse", "second-run", "a second, fault-free run() of the same suite object raised %r and delivered %r (expected %r)" % (
                 second["exc"], second["events"], want2)))
